@@ -65,7 +65,7 @@ CHECKS = {
     "C15": ("lab", "exploration", "runtime monitoring of the real expander with catch_unwind and outcome classification over labelled invalid inputs and random token edits; rustc reject corpus; thorough: coverage-guided fuzzing (libFuzzer, then AddressSanitizer on the corpus it built) with the same outcome oracle",
             "Every input ends in exactly one outcome class; internal panics, accepted structurally invalid inputs, outputs that are not a syntactically valid expression and non-termination are violations. Labelled mutations cover every invalidity named in the property, plus random token soups; the same illegal inputs are compiled through the 12 real macros by rustc (each must be an error at its own line, never a proc-macro panic). The thorough tier adds a coverage-guided run: libFuzzer byte strings are decoded into DSL token streams (operator / operand / option / handler vocabulary with glue and raw punctuation, or raw text), expanded under every Config by the real parser + generator, judged by the same oracle inside the fuzz target (findings are recorded without stopping the run and confirmed through `lab total` before they count), first without a sanitizer for throughput, then under AddressSanitizer on the corpus that was built.",
             "Wrong-kind handler and futures_crate_path-on-sync rejections are raised by the generator as labelled configuration errors (panic with message), which is the pinned behaviour.", "3/C15"),
-    "C20": ("lab", "exploration", "runtime monitoring: repeated and concurrent expansion of the real expander, token-string comparison (thorough: Miri data-race/UB interpreter on a 4-thread smoke run)",
+    "C20": ("lab", "exploration", "runtime monitoring: repeated and concurrent expansion of the real expander, token-string comparison; valgrind memcheck on a sample of the same workload (thorough: Miri data-race/UB interpreter on a 4-thread smoke run)",
             "Each (input, config) is expanded 4x sequentially in shuffled orders and 64x from 16 threads; all outputs must be identical strings; the same holds across two fresh processes that differ in working directory, environment variables, locale and input order, and under a second lexer version with inputs that make single expansions fail or panic. Thorough tier additionally interprets a concurrent expansion under Miri (fn-pointer-through-union read, Send/Sync claims, hidden statics).",
             "Miri sub-check uses proc-macro2 1.0.106 instead of 1.0.51 (nightly cannot build the latter).", "3/C20"),
 }
@@ -87,7 +87,7 @@ EXTRA = {
     "C17": " Nested thread-spawning macros meet at a rendezvous (their branches must be alive together although nested); a 6- / 11-branch inner macro is nested in operand position of the outer kinds. The rustc corpus of C07 (own prelude names, lower-case constants named like internal bindings, `#![no_implicit_prelude]`) guards the hygiene repairs of section 5, rows 13 and 20.",
     "C19": " The bounds programs also come in wide (5 / 8 / 12-branch) forms. `??` callbacks that mutate caller locals are part of the caller-stack matrix.",
     "C18": " The first panic positions of every task-kind case are also run with tokio itself polling the macro's future (multi-thread runtime; next to a sibling that exhausts the coop budget).",
-    "C20": " The second process of the cross-process comparison runs inside a hostile package directory (manifest with renamed tokio / futures / join, cargo config) as cwd and CARGO_MANIFEST_DIR. Rejected inputs count as invocations: their complete diagnostics are compared, including inputs with several different mistakes at once.",
+    "C20": " The second process of the cross-process comparison runs inside a hostile package directory (manifest with renamed tokio / futures / join, cargo config) as cwd and CARGO_MANIFEST_DIR. Rejected inputs count as invocations: their complete diagnostics are compared, including inputs with several different mistakes at once. A sample of the determinism workload (16 inputs quick / 320 thorough, each expanded sequentially and from 4 threads) also runs under valgrind memcheck (the expander's only `unsafe` read and its Send / Sync claims).",
     "C10": " Cancellation runs: in fully gated runs of the async kinds the macro's future is dropped at every quiescent pending point in turn; the token ledger must be empty right after the drop (task kinds: after the detached tasks ran out and the runtime is gone) and what ran before is a prefix of the model.",
     "C15": " No generator panic is whitelisted (a handler / option that does not fit the macro kind must come out as a diagnostic). Labelled classes also: a `~` inside an operand that is not complete yet, `let` names with a subpattern.",
 }
